@@ -134,6 +134,11 @@ def check(run):
             run.violation("malformed-construction-accepted", name, {"case": name}, "raise", "returned")
         except Exception:
             pass
+    from .. import layouts
+    layouts.sweep_modes(run, "storage", [("ndarray", lambda f: f.ndarray), ("truncate_ell", lambda f: f.truncate_ell(f.ell_max - 1)), ("view[1]", lambda f: f[1]), ("view[:,0]", lambda f: f[:, 0]),
+                                         ("entries", lambda f: np.array([f[..., f.index(l, m)] for l in range(abs(f.spin_weight), f.ell_max + 1) for m in (-l, 0, l)])),
+                                         ("copy", lambda f: f.copy())],
+                        [-2, 0, 3] if quick else range(-4, 5))
     run.assumptions += ["float sqrt in LM_deduce_ell_max is exact on perfect squares below 2^52"]
 
 
